@@ -236,6 +236,72 @@ def upsert_case(rng):
     return "\n".join(lines) + "\n"
 
 
+def update_case(rng):
+    """Update mode: an input CSV with a `__` column, asked for as a pass-through field, next to hidden recipe fields."""
+    cols = ["Id", "Name"] + rng.sample(["__x", "__k", "City"], rng.randint(1, 3))
+    rows = [[f"00{i}"] + [f"v{i}{j}" for j in range(len(cols) - 1)] for i in range(1, rng.randint(2, 4))]
+    csv_text = ",".join(cols) + "\n" + "".join(",".join(r) + "\n" for r in rows)
+    passthrough = ["Id"] + [c for c in cols[2:] if rng.random() < 0.8]
+    lines = ["- object: Contact", "  fields:", "    Greeting: hi ${{input.Name}}"]
+    if rng.random() < 0.6:
+        lines += ["    __tmp: ${{input.Name}}", "    Copy: ${{__tmp}}"]
+    return {"kind": "update", "recipe": "\n".join(lines) + "\n", "csv": csv_text, "passthrough": passthrough, "parts": [1]}
+
+
+def update_oracle(rep, case):
+    from snowfakery import generate_data
+
+    d = tempfile.mkdtemp(prefix="verif_c09u_")
+    try:
+        rpath, ipath, csvd, dbp = (os.path.join(d, n) for n in ("r.recipe.yml", "in.csv", "csv", "o.db"))
+        os.mkdir(csvd)
+        with open(rpath, "w") as f:
+            f.write(case["recipe"])
+        with open(ipath, "w") as f:
+            f.write(case["csv"])
+        js = io.StringIO()
+        from snowfakery.api import SnowfakeryApplication
+
+        def app():
+            a = SnowfakeryApplication()
+            a.echo = lambda *args, **kw: None
+            return a
+
+        kw = dict(update_input_file=ipath, update_passthrough_fields=case["passthrough"])
+        try:
+            generate_data(rpath, parent_application=app(), output_format="json", output_files=[js], **kw)
+            generate_data(rpath, parent_application=app(), output_format="csv", output_folder=csvd, **kw)
+            generate_data(rpath, parent_application=app(), dburl=f"sqlite:///{dbp}", **kw)
+        except Exception as e:  # noqa
+            rep.count("update-run-failed:" + common.outcome_of_exception(e).split(":")[0])
+            return
+        rep.count("update-run-ok")
+        names = []
+        for row in json.loads(js.getvalue() or "[]"):
+            names += list(row.keys()) + [row.get("_table")]
+        if scan(rep, case, "json", names):
+            return
+        names = []
+        for fn in os.listdir(csvd):
+            names.append(os.path.splitext(fn)[0])
+            if fn.endswith(".csv"):
+                with open(os.path.join(csvd, fn), newline="") as f:
+                    names += next(csv.reader(f), [])
+            else:
+                names += IDENT.findall(open(os.path.join(csvd, fn)).read())
+        if scan(rep, case, "csv", names):
+            return
+        con = sqlite3.connect(dbp)
+        names = []
+        for (tn,) in con.execute("select name from sqlite_master where type='table'").fetchall():
+            names.append(tn)
+            names += [r[1] for r in con.execute(f'pragma table_info("{tn}")').fetchall()]
+        con.close()
+        scan(rep, case, "sqlite", names)
+    finally:
+        shutil.rmtree(d, ignore_errors=True)
+
+
 def mapping_oracle(rep, text, k):
     """Run with a CCI mapping file and scan steps, sf_object/table, field keys and lookup keys."""
     from snowfakery import generate_data
@@ -403,11 +469,19 @@ def run(ctx, rep, findings):
                 "1-2 iterations: real run vs real run of the un-hidden twin; L2 model vs real run; a subset through every "
                 "output format + mapping with artefact scan. Non-trivial: completed run with >= 3 rows.")
     for f in findings:
-        if f.get("input"):
+        if f.get("input") and "ast" in f["input"]:
             twin_oracle(rep, f["input"]["ast"], f["input"]["parts"][0])
     n = ctx.scale(350, 5000)
     nf = ctx.scale(45, 600)
     pending = []
+    for f in findings:
+        if f.get("input") and f["input"].get("kind") == "update":
+            update_oracle(rep, f["input"])
+    for i in range(ctx.scale(15, 150)):
+        c = update_case(ctx.rng)
+        update_oracle(rep, c)
+        rep.case({"recipe": c["recipe"], "csv": c["csv"], "passthrough": c["passthrough"]}, nontrivial=True)
+        rep.count("family:update-mode-hidden-passthrough")
     for i in range(ctx.scale(40, 500)):
         text = upsert_case(ctx.rng)
         k = ctx.rng.choice([1, 2])
@@ -452,6 +526,9 @@ def flush(rep, pending):
 
 def replay(case, rep):
     k = case["parts"][0]
+    if case.get("kind") == "update":
+        update_oracle(rep, case)
+        return
     if case.get("kind") == "upsert":
         mapping_oracle(rep, case["recipe"], k)
         return
